@@ -380,6 +380,8 @@ impl Cli {
     pub closed spec fn no_overflow(&self) -> bool { self.take matches Some(t) ==> self.skip + t <= u64::MAX }
 }
 
+//@@ include lemmas/pipeline_theory.rs
+
 // what Process::start guarantees about the started chain `s` of an assembled chain `q`
 pub open spec fn started_from(q: Box<dyn Process>, s: Box<dyn Process>) -> bool {
     s.inv() && is_prefix(q.log(), s.log()) && (q.eager() ==> s.eager()) && s.must_break() == q.must_break()
